@@ -771,8 +771,14 @@ def _tables_created_fresh(ctx, model, family, tables, tag):
                "the node and the extra arguments, not what each instance was "
                "constructed with (flags, function table, context)")
     if not shared:
-        ctx.ob(f"O/{tag}/table-created-fresh", n_sites > 0, family.loc(),
-               f"{n_sites} sites bind {sorted(tables)}; each creates the container")
+        # (no site of the form self.<table> = ...: the table is reached some
+        # other way -- through a helper, say -- and this rule has nothing to
+        # look at; how requests are served is the mix-in judge's matter)
+        ctx.ob(f"O/{tag}/table-created-fresh", True, family.loc(),
+               f"{n_sites} sites bind {sorted(tables)}; each creates the "
+               "container" if n_sites else
+               "no attribute of the instance is bound to a table directly",
+               nontrivial=bool(n_sites))
 
 
 def _is_mutable_literal(v):
